@@ -22,7 +22,40 @@ fn optimize_repeatedly(prev_count: &mut usize, mut program: Program<Name>) -> Pr
     program
 }
 
+/// Verification hook (off unless built with `--cfg aiken_verif`): keeps a copy of every program
+/// handed to the optimiser, i.e. the code generator's output before optimisation.
+#[cfg(aiken_verif)]
+pub mod verif_hook {
+    use crate::ast::{Name, Program};
+    use std::cell::RefCell;
+
+    thread_local! {
+        static PRE: RefCell<Option<Vec<Program<Name>>>> = const { RefCell::new(None) };
+    }
+
+    /// Start recording on this thread.
+    pub fn start() {
+        PRE.with(|p| *p.borrow_mut() = Some(vec![]));
+    }
+
+    /// Stop recording and return what was recorded since `start`.
+    pub fn take() -> Vec<Program<Name>> {
+        PRE.with(|p| p.borrow_mut().take().unwrap_or_default())
+    }
+
+    pub(super) fn record_pre(program: &Program<Name>) {
+        PRE.with(|p| {
+            if let Some(v) = p.borrow_mut().as_mut() {
+                v.push(program.clone());
+            }
+        });
+    }
+}
+
 pub fn aiken_optimize_and_intern(program: Program<Name>) -> Program<Name> {
+    #[cfg(aiken_verif)]
+    verif_hook::record_pre(&program);
+
     let mut node_count = 0;
 
     let program = optimize_repeatedly(&mut node_count, program.run_once_pass())
